@@ -239,6 +239,62 @@ def lattice(ctx):
                     ctx.violation('wrapped body executed during replay although the call is present in the recording (as an exception)', {'lattice_row': row})
         finally:
             sess.close()
+    # ---- precedence among SEVERAL present keys: main alias first, then the fallback aliases in the order given
+    from vlib.values import UserError as _UE
+    for static in (False, True):
+        P = base_prog(static)
+        mk = lambda name, alias: dict(P['inputs'][0], name=name, alias=alias)
+        P['inputs'] = [mk('old', 'old.alias'), mk('aaa', 'aaa.alias'), mk('zzz', 'zzz.alias')]
+        P['body'] = [{'op': 'in', 'decl': n, 'args': [{'lit': 1}], 'kwargs': {}, 'var': 'v_' + n} for n in ('zzz', 'old', 'aaa')]
+        for kind in ('memory', 'file', 's3'):
+            sess = ReplaySession(ctx, P, kind)
+            try:
+                vals = {e['decl']: call_outcome(e) for e in sess.live.journal.calls()}
+                present = {(n + '.alias', canon([1]), canon({})): vals[n] for n in ('old', 'aaa', 'zzz')}
+                for main, fb in [('old.alias', ['aaa.alias']), ('old.alias', ['zzz.alias']), ('old.alias', ('fn', ['zzz.alias', 'aaa.alias'])),
+                                 ('new.alias', ['zzz.alias', 'aaa.alias']), ('new.alias', ['aaa.alias', 'zzz.alias']), ('new.alias', ['nope', 'zzz.alias', 'old.alias']),
+                                 ('aaa.alias', ['old.alias']), ('zzz.alias', ['old.alias', 'aaa.alias'])]:
+                    idx += 1
+                    if not ctx.mine(idx):
+                        continue
+                    p2 = clone(P)
+                    d = dict(p2['inputs'][0], name='q', alias=main, fallback=fb, run_original=idx % 2 == 0, substitute=SUBSTITUTES[idx % len(SUBSTITUTES)])
+                    p2['inputs'] = [d]
+                    p2['body'] = [{'op': 'try', 'body': [{'op': 'in', 'decl': 'q', 'args': [{'lit': 1}], 'kwargs': {}, 'var': 'v'}]}]
+                    row = {'row': 'precedence', 'static': static, 'cassette': kind, 'main': main, 'fallback': fb}
+                    ctx.case(row)
+                    rep, err = sess.replay(p2, {'lattice_row': row}, enabled=idx % 2 == 1)
+                    calls = rep.journal.calls()
+                    if len(calls) == 1:
+                        judge_input_call(ctx, sess, rep, calls[0], rep.decls['q'], present, {'lattice_row': row})
+                        ctx.count('precedence_rows')
+                    if rep.journal.bodies():
+                        ctx.violation('wrapped body executed during replay although a key of the call is present', {'lattice_row': row})
+            finally:
+                sess.close()
+    # ---- run-original of an input that is new in the replayed code: its body runs, but the interceptions made FROM that body are
+    #      ordinary interceptions of the replay and must be answered from the recording
+    for static in (False, True):
+        P = base_prog(static)
+        sess = ReplaySession(ctx, P, 'memory')
+        try:
+            idx += 1
+            if ctx.mine(idx):
+                p2 = clone(P)
+                nd = dict(p2['inputs'][0], name='brandnew', alias='brand.new', run_original=True, nparams=0,
+                          nested=[{'op': 'in', 'decl': 'old', 'args': [{'lit': 1}], 'kwargs': {}}, {'op': 'out', 'decl': 'o', 'args': [{'lit': 'from-nested'}], 'kwargs': {}}])
+                p2['inputs'] = p2['inputs'] + [nd]
+                p2['body'] = [{'op': 'try', 'body': [{'op': 'in', 'decl': 'brandnew', 'args': [], 'kwargs': {}, 'var': 'v'}]}]
+                row = {'row': 'run-original-with-nested-interceptions', 'static': static}
+                ctx.case(row)
+                rep, err = sess.replay(p2, {'lattice_row': row}, enabled=False)
+                bodies = [b['decl'] for b in rep.journal.bodies()]
+                ctx.count('nested_run_original_rows')
+                if bodies != ['brandnew']:
+                    ctx.violation('run-original of a new input: bodies executed during replay were %r, only the new input\'s own body may run' % (bodies,),
+                                  {'lattice_row': row})
+        finally:
+            sess.close()
     ctx.note('lattice_rows', idx)
 
 
